@@ -104,6 +104,17 @@ def evaluate(case, out):
             continue
         for key, a in con.assertions.items():
             try:
+                j0 = next((j for j in pop if cid in cvrs[j].votes), None)
+                if not pre and len(cvrs) % 3 == 2 and j0 is not None and len(cvrs) <= 200:
+                    # a first pass over this very list while one of its cards did not yet list the contest (the card was
+                    # completed in place afterwards, as add_pool_contests / update_votes do): the margin is that of the list as it is now
+                    keep = cvrs[j0].votes.pop(cid)
+                    try:
+                        a.set_margin_from_cvrs(audit, cvrs)
+                    except Exception:  # noqa  (the contest may then be on no card at all)
+                        pass
+                    cvrs[j0].votes[cid] = keep
+                    feats.add("card-completed-in-place-after-a-first-pass")
                 if pre:
                     pass
                 elif len(cvrs) % 2 == 0:
